@@ -17,6 +17,8 @@ const (
 	cGen0 // cGen0+i: generation of held channel i
 )
 
+var errPred = errors.New("predicate-error")
+
 // bump performs {x++; broadcast()} through the chosen entry point.
 func bump(b *broadcast.Broadcast, how int) {
 	cb := func(bc func(), _ func() <-chan struct{}) {
@@ -124,11 +126,25 @@ func init() {
 	})
 	eng.Register(&eng.Scenario{
 		Name: "bcast-cancel", Props: []string{"C03"}, MustFinish: true, ObsNames: stdObs,
-		Doc:   "Broadcast: cancellable waiter Wait(x>=2), bumpers reach only x=2 or x=1 (choice), canceller racing with the broadcasts",
+		Doc:   "Broadcast: waiter Wait(x>=2) whose context is cancelled, expires (deadline) or had expired before the call (choice); bumpers reach only x=2 or x=1 (choice), the canceller races with the broadcasts",
 		Quick: eng.Bounds{PB: 2}, Thorough: eng.Bounds{PB: 3},
 		Body: func() {
 			var b broadcast.Broadcast
-			ctx, cancel := context.WithCancel(bg)
+			// the waiter's context ends by cancellation, by the expiry of a deadline, or had expired before the call
+			var ctx context.Context
+			var cancel func()
+			switch vsched.Choose(3) {
+			case 0:
+				ctx, cancel = context.WithCancel(bg)
+			case 1:
+				e := newExpCtx(bg)
+				ctx, cancel = e, e.expire
+			case 2:
+				e := newExpCtx(bg)
+				vsched.CtrSet(cCancel, 1)
+				e.expire()
+				ctx, cancel = e, func() {}
+			}
 			n := 1 + vsched.Choose(2)
 			T("W", func() { waiter(&b, ctx, 2, 0, nil) })
 			T("B", func() {
@@ -221,7 +237,7 @@ func init() {
 	})
 	eng.Register(&eng.Scenario{
 		Name: "bcast-generation", Props: []string{"C03"}, MustFinish: true, ObsNames: stdObs,
-		Doc:   "Broadcast generation oracle: an observer obtains wait channels in three critical sections while two bumpers broadcast (one of them twice); a channel handed out at broadcast count g must be closed iff the count is now > g (closedness read from the channel header) - checked in every later critical section and at the end",
+		Doc:   "Broadcast generation oracle: an observer obtains wait channels in three critical sections (and optionally a Wait predicate obtains one and reports done / an error at once) while two bumpers broadcast (one of them twice); a channel handed out at broadcast count g must be closed iff the count is now > g (closedness read from the channel header) - checked in every later critical section and at the end",
 		Quick: eng.Bounds{PB: 2}, Thorough: eng.Bounds{PB: 3},
 		Body: func() {
 			var b broadcast.Broadcast
@@ -252,6 +268,25 @@ func init() {
 					})
 				}
 			})
+			// a Wait whose predicate itself obtains (and keeps) the wait channel and reports done or an
+			// error on that very evaluation: the channel belongs to the current generation like any other
+			pw := vsched.Choose(3)
+			if pw != 0 {
+				T("OW", func() {
+					b.Wait(bg, func(bc func(), getWaitCh func() <-chan struct{}) (bool, error) {
+						check("Wait predicate")
+						ch := getWaitCh()
+						n := int(vsched.Ctr(cHeld))
+						vsched.SetCell(n, ch)
+						vsched.CtrSet(cGen0+n, vsched.Ctr(cNB))
+						vsched.CtrAdd(cHeld, 1)
+						if pw == 1 {
+							return true, nil
+						}
+						return false, errPred
+					})
+				})
+			}
 			h := vsched.Choose(3)
 			T("B1", func() { bump(&b, 0); bump(&b, h) })
 			h2 := vsched.Choose(3)
